@@ -437,8 +437,14 @@ sprDone:
 			for i := L; i < h; i++ {
 				var group []pegReq
 				for _, p := range byHeight[i] {
-					if h >= e.ConversionLimit && h < e.V20 && p.Batch.HasPEGRequest() && len(p.Batch.Transactions) > 1 {
-						x.MixedPegBatch = true
+					if h >= e.ConversionLimit && h < e.V20 && p.Batch.HasPEGRequest() {
+						// recorded finding shape: a PEG request together with a transaction that is NOT a PEG request
+						// (several PEG requests in one batch are ordinary and fully judged)
+						for _, tx := range p.Batch.Transactions {
+							if !tx.IsPEGRequest() {
+								x.MixedPegBatch = true
+							}
+						}
 					}
 					out := m.applyBatch(x, B, p.Batch, p.Entry, obs, avgs, h, true)
 					if out.Code > 0 && h >= e.ConversionLimit && h < e.V20 {
